@@ -832,6 +832,7 @@ func (l *directedMultiplexLocalMover) deltaQ(n graph.Node) (deltaQ float64, dst 
 		c := l.communities[i]
 		var removal bool
 		var _dQadd float64
+		first := true
 		for layer := 0; layer < l.g.Depth(); layer++ {
 			m := l.m[layer]
 			if m == 0 {
@@ -852,8 +853,9 @@ func (l *directedMultiplexLocalMover) deltaQ(n graph.Node) (deltaQ float64, dst 
 			for j, u := range c {
 				uid := u.ID()
 				if uid == id {
-					// Only mark and check src community on the first layer.
-					if layer == 0 {
+					// Only mark and check src community on the first
+					// layer that is considered.
+					if first {
 						if src.community != -1 {
 							panic("community: multiple sources")
 						}
@@ -874,6 +876,8 @@ func (l *directedMultiplexLocalMover) deltaQ(n graph.Node) (deltaQ float64, dst 
 				sigma_totC.in += w.in
 				sigma_totC.out += w.out
 			}
+
+			first = false
 
 			a_aa := l.weight[layer](id, id)
 			k_a := l.edgeWeightsOf[layer][id]
